@@ -784,6 +784,87 @@ theorem crpsIntegral_eq_lebesgue (xs : List ℚ) (y p : ℚ) (g : List ℚ) (hg 
   · rintro a b ⟨hab, hno⟩
     exact ⟨hab, crpsIntegrandR_const xs y a b hno⟩
 
+/-! ### the ensemble Brier score as a function of the threshold (left-continuous step function), `Spec.CrpsEns.brierIntegral` -/
+
+section brier
+open SV.Spec.CrpsEns (eventFrac brier brierFairCorr brierIntegral stepIntegralLeft)
+
+/-- fraction of members ≥ θ, Brier score of the event "value ≥ θ" and its fair correction, read over ℝ -/
+noncomputable def eventCountR (xs : List ℚ) (θ : ℝ) : ℝ := ((xs.filter (fun x : ℚ => decide (θ ≤ (x : ℝ)))).length : ℝ)
+noncomputable def brierR (xs : List ℚ) (y θ : ℝ) : ℝ :=
+  (eventCountR xs θ / (xs.length : ℝ) - (if θ ≤ y then 1 else 0)) ^ 2
+noncomputable def brierFairCorrR (xs : List ℚ) (θ : ℝ) : ℝ :=
+  if xs.length ≤ 1 then 0
+  else eventCountR xs θ * ((xs.length : ℝ) - eventCountR xs θ) / ((xs.length : ℝ) ^ 2 * ((xs.length : ℝ) - 1))
+/-- the integrand of `brierIntegral fair` -/
+noncomputable def brierIntegrandR (fair : Bool) (xs : List ℚ) (y θ : ℝ) : ℝ :=
+  brierR xs y θ - (if fair then brierFairCorrR xs θ else 0)
+
+theorem eventCountR_cast (xs : List ℚ) (t : ℚ) :
+    eventCountR xs t = (((xs.filter (fun x => decide (t ≤ x))).length : ℚ) : ℝ) := by
+  have hf : (xs.filter (fun x : ℚ => decide ((t : ℝ) ≤ (x : ℝ)))) = xs.filter (fun x => decide (t ≤ x)) :=
+    List.filter_congr (fun x _ => by simp only [Rat.cast_le])
+  unfold eventCountR; rw [hf]; push_cast; rfl
+
+theorem brierIntegrandR_cast (fair : Bool) (xs : List ℚ) (y t : ℚ) :
+    brierIntegrandR fair xs y t
+      = (((brier xs y t - (if fair then brierFairCorr xs t else 0)) : ℚ) : ℝ) := by
+  have hb : brierR xs y t = ((brier xs y t : ℚ) : ℝ) := by
+    unfold brierR brier eventFrac
+    rw [eventCountR_cast]
+    by_cases h : t ≤ y
+    · have h' : (t : ℝ) ≤ y := by exact_mod_cast h
+      simp [h, h']
+    · have h' : ¬ (t : ℝ) ≤ y := by exact_mod_cast h
+      simp [h, h']
+  have hc : brierFairCorrR xs t = ((brierFairCorr xs t : ℚ) : ℝ) := by
+    unfold brierFairCorrR brierFairCorr
+    rw [eventCountR_cast]
+    split_ifs <;> push_cast <;> rfl
+  unfold brierIntegrandR
+  rw [hb, hc]
+  cases fair <;> simp
+
+/-- on an open cell (a, b) that contains neither y nor a member, the Brier integrand keeps its value at b -/
+theorem brierIntegrandR_const (fair : Bool) (xs : List ℚ) (y a b : ℚ) (hno : ∀ x, x ∈ y :: xs → x ≤ a ∨ b ≤ x) (θ : ℝ)
+    (h1 : (a : ℝ) < θ) (h2 : θ < b) : brierIntegrandR fair xs y θ = brierIntegrandR fair xs y b := by
+  have key : ∀ x, x ∈ y :: xs → ((θ ≤ (x : ℝ)) ↔ ((b : ℝ) ≤ x)) := by
+    intro x hx
+    rcases hno x hx with h | h
+    · have : (x : ℝ) ≤ a := by exact_mod_cast h
+      exact ⟨fun h' => by linarith, fun h' => by linarith⟩
+    · have : (b : ℝ) ≤ x := by exact_mod_cast h
+      exact ⟨fun _ => this, fun _ => by linarith⟩
+  have hf : eventCountR xs θ = eventCountR xs b := by
+    have : xs.filter (fun x : ℚ => decide (θ ≤ (x : ℝ))) = xs.filter (fun x : ℚ => decide ((b : ℝ) ≤ (x : ℝ))) :=
+      List.filter_congr (fun x hx => by simp only [key x (List.mem_cons_of_mem _ hx)])
+    unfold eventCountR; rw [this]
+  unfold brierIntegrandR brierR brierFairCorrR
+  rw [hf]; simp only [key y (by simp)]
+
+/-- **C06 / C13**: `brierIntegral fair xs y` is ∫ (Brier score of the ensemble at threshold θ [− fair correction]) dθ
+    over the hull of the members and the observation -/
+theorem brierIntegral_eq_lebesgue (fair : Bool) (xs : List ℚ) (y p : ℚ) (g : List ℚ)
+    (hg : SV.Spec.CrpsEns.grid (y :: xs) = p :: g) :
+    IntervalIntegrable (brierIntegrandR fair xs y) volume p (lastOr p g) ∧
+      ((brierIntegral fair xs y : ℚ) : ℝ) = ∫ θ in (p : ℝ)..(lastOr p g : ℝ), brierIntegrandR fair xs y θ := by
+  unfold brierIntegral
+  rw [hg]
+  apply stepIntegralLeft_eq_intervalIntegral _ _ (brierIntegrandR_cast fair xs y)
+  have hs := SV.Lemmas.CrpsEns.pairwise_grid (y :: xs)
+  rw [hg] at hs
+  refine (sorted_chain_noInside (fun x => x ∈ y :: xs) g p hs ?_).imp ?_
+  · intro x hx
+    have : x ∈ SV.Spec.CrpsEns.grid (y :: xs) := SV.Lemmas.CrpsEns.mem_grid.mpr hx
+    rw [hg] at this
+    rcases List.mem_cons.mp this with rfl | h
+    · exact Or.inl le_rfl
+    · exact Or.inr h
+  · rintro a b ⟨hab, hno⟩
+    exact ⟨hab, brierIntegrandR_const fair xs y a b hno⟩
+
+end brier
+
 end crps
 
 /-! ### weights with infinite end points (`wRectE`, `wTrapE` of Spec/ThresholdWeighted.lean) -/
